@@ -142,7 +142,7 @@ func TestPropConcurrent(t *testing.T) {
 		off["loop-var"] = true
 	}
 	batch := 16
-	ev.Check(t, ev.N{Quick: 24, Thorough: 1500}, func(t *rapid.T) {
+	ev.Check(t, ev.N{Quick: 24, Thorough: 240}, func(t *rapid.T) {
 		n := rapid.IntRange(batch/2, batch).Draw(t, "nprograms")
 		progs := make([]goconc.Prog, n)
 		cases := make([]Case, n)
